@@ -54,6 +54,12 @@ def gen_case(seed, tier, index=0):
     if rng.chance(0.4):
         # further files named in the same invocations: the tool iterates a set of paths (hash-seed order)
         extras = rng.sample(["zz/data.json", "zz/other.py", "zz/logo.png", "zz/notes.txt"], rng.randint(1, 2))
+    bystanders = []
+    if rng.chance(0.3):
+        # files that are never named, whose names extend the target's (editor back-ups, left-overs): whatever the
+        # tool does to write the target, what these declare must stay
+        tgt = name + ".license" if dot_license else name
+        bystanders = [tgt + suf for suf in rng.sample([".tmp", ".bak", "~", ".orig", ".new", ".swp"], rng.randint(1, 3))]
     t = datetime.datetime(rng.pick([2019, 2023, 2024]), rng.randint(1, 12), rng.randint(1, 28), 12, 0, 0)
     for _ in range(rng.randint(2, 8)):
         opts = {"holders": rng.sample(A.SAFE_HOLDERS[:5], rng.randint(0, 2)), "licenses": rng.sample(A.LICENSES, rng.randint(0, 2))}
@@ -116,14 +122,17 @@ def gen_case(seed, tier, index=0):
             faults = [{"op": "open-r", "path": tgt, "errno": rng.pick(["EIO", "ESTALE", "EACCES"]), "nth": 2}]
         steps.append({"argv": ["--no-multiprocessing"] + A.argv_of(opts, named), "clock": t.isoformat(timespec="seconds"),
                       "opts": opts, "named": named, "faults": faults,
-                      "observe": [{"kind": "reuse_info", "path": p} for n in [name] + extras for p in (n, n + ".license")]})
+                      "observe": [{"kind": "reuse_info", "path": p} for n in [name] + extras + bystanders for p in (n, n + ".license")]})
         t += datetime.timedelta(seconds=rng.pick([1, 30, 3600, 86400 * 20, 86400 * 200, 86400 * 400, 86400 * 800]))
     files = [{"path": name, "content": content}] + A.template_files(sorted(tnames))
     for e in extras:
         files.append({"path": e, "content": {"zz/data.json": "{}\n", "zz/other.py": "import sys\n", "zz/logo.png": G.BINARY,
                                              "zz/notes.txt": "notes\n"}[e]})
-    steps = [{"argv": ["--version"], "observe": [{"kind": "reuse_info", "path": p} for n in [name] + extras for p in (n, n + ".license")]}] + steps
-    return {"prop": PROP, "seed": seed, "world": {"files": files}, "style": style, "name": name, "names": [name] + extras, "dot_license": dot_license,
+    for b in bystanders:
+        files.append({"path": b, "content": "# SPDX-FileCopyrightText: 2012 Bystander <by@example.org>\n# SPDX-License-Identifier: 0BSD\nkept = 1\n"})
+    steps = [{"argv": ["--version"], "observe": [{"kind": "reuse_info", "path": p} for n in [name] + extras + bystanders for p in (n, n + ".license")]}] + steps
+    return {"prop": PROP, "seed": seed, "world": {"files": files}, "style": style, "name": name, "names": [name] + extras + bystanders,
+            "bystanders": bystanders, "dot_license": dot_license,
             "variants": [{"hashseed": rng.randrange(8), "steps": steps}]}
 
 
@@ -161,7 +170,7 @@ def oracle(case, results):
         out = {}
         for i, n in enumerate(names):
             pair = (obs[2 * i] if len(obs) > 2 * i else None, obs[2 * i + 1] if len(obs) > 2 * i + 1 else None)
-            if case["dot_license"]:
+            if case["dot_license"] and n not in (case.get("bystanders") or []):
                 # a history that works on the .license sibling throughout: the file's own header is not its subject
                 lic = pair[1]
                 out[n] = dict(empty) if (lic is None or lic.get("error") == "FileNotFoundError") else lic
@@ -205,6 +214,9 @@ def oracle(case, results):
                 # not named, skipped or failed for this file: what the file declares must at least not shrink
                 if "error" not in obs and n in named is False:
                     pass
+                if "error" in obs and n not in named and (D[n]["licenses"] or D[n]["copyrights"]):
+                    vs.append({"sig": "C09/unnamed-file-lost-information", "detail": f"step {k} argv={st['argv']}: {n} declared {D[n]} and can no longer be read: {obs['error']}"})
+                    D[n] = dict(empty)
                 if "error" not in obs:
                     lost = sorted((set(D[n]["licenses"]) - set(obs["licenses"])) | (set(D[n]["copyrights"]) - set(obs["copyrights"])))
                     if lost and n not in named:
